@@ -161,11 +161,45 @@ def _needs_rebuild_calls(ctx, h):
     return out
 
 
+def _check_any_closure(ctx, pf):
+    """`resolutions.iter().any(|r| matches!(r, NeedsRebuild))` - the iterator form."""
+    anys = [c for c in pf.calls if c.path == "std::iter::Iterator::any"]
+    if len(anys) != 1 or pf.origins_of_place({"local": 0, "proj": []}) != pf._call_origins(anys[0], (), frozenset()):
+        return False
+    a = anys[0]
+    src = pf.origins_of_operand(a.args[0])
+    if not (src and all(o[0][0] == "param" and all(st[0] in ("iter", "adapt") for st in o[1:]) for o in src)):
+        ctx.viol((pf.id, "pred-collection"), "the predicate does not look at every resolution", a.where)
+        return True
+    cl = None
+    for o in pf.origins_of_operand(a.args[1]):
+        if o[0][0] == "agg" and o[0][4] == "closure":
+            cl = ctx.P.fns[pf.blocks[o[0][2]]["stmts"][o[0][3]]["rv"]["kind"]["body"]]
+    if cl is None:
+        return False
+    elem = {(("param", 2),)}
+    nr_edges = cl.edges_variant(lambda info, nm, oth, rest: info["origins"] == elem and (nm == "NeedsRebuild" or (oth and rest == ["NeedsRebuild"])))
+    if not nr_edges:
+        ctx.viol((cl.id, "pred-no-test"), "the predicate never tests for NeedsRebuild", cl.where(0))
+        return True
+    for (kind, bb, idx, place, payload) in cl.defs.get(0, ()):
+        if kind != "assign" or payload["k"] != "use" or payload["op"]["k"] != "const":
+            raise AnalysisError("idiom not recognised: non-constant result in %s" % cl.id)
+        val = payload["op"].get("bits") == "1"
+        if val and not cl.dominated_by_edges(bb, nr_edges):
+            ctx.viol((cl.id, "pred-true-unguarded"), "returns true without having seen NeedsRebuild", cl.where(bb, idx))
+        if not val and bb in cl.reach([x for (_, x) in nr_edges]):
+            ctx.viol((cl.id, "pred-needs-rebuild-false"), "a NeedsRebuild element can yield false", cl.where(bb, idx))
+    ctx.ok()
+    return True
+
+
 def _check_any_needs_rebuild(ctx, pf):
     lps = pf.loops()
-    if len(lps) != 1:
-        ctx.viol((pf.id, "pred-shape"), "needs-rebuild predicate is not a single loop", pf.where(0))
+    if len(lps) == 0 and _check_any_closure(ctx, pf):
         return
+    if len(lps) != 1:
+        raise AnalysisError("idiom not recognised: the needs-rebuild predicate %s is neither a single loop nor iter().any(..)" % pf.id)
     lp = lps[0]
     if not all(o[0][0] == "param" and all(st[0] in ("iter", "adapt") for st in o[1:]) for o in lp["iter"]):
         ctx.viol((pf.id, "pred-collection"), "the predicate does not look at every resolution", pf.where(lp["header"]))
@@ -694,7 +728,8 @@ def c04_r6(ctx):
             ctx.inst("%s::%s" % (adt, var), f.where(bb, idx))
             org = f.origins_of_operand(rv["ops"][0])
             # must be the very path that was looked up: find the lookup call that dominates and compare
-            lookups = [c for c in f.calls if (c.trait == SYS and c.name in ("get_modified", "is_file", "open")) or c.path.startswith("blob::get_file_ticket")]
+            lookups = [c for c in f.calls if (c.trait == SYS and c.name in ("get_modified", "is_file", "open")) or
+                       (ctx.P.local_targets(c) and ctx.P.fns[ctx.P.local_targets(c)[0]].body.get("output", {}).get("s", "").startswith("std::result::Result<std::option::Option<ticket::Ticket>"))]
             same_calls = [c for c in lookups if c.bb != bb and f.origins_of_operand(c.args[1]) == org]
             same = bool(same_calls) and f.dominated_by_blocks(bb, [c.bb for c in same_calls])
             if not same:
